@@ -126,4 +126,35 @@ def pvalSet (p : Array (Option Bool)) (id : Nat) (x : Option Bool) : Array (Opti
 def pvalEq (a b : Array (Option Bool)) : Bool :=
   (List.range (max a.size b.size)).all fun i => pvalIndex a i == pvalIndex b i
 
+
+/-! ### second batch (Gen/Algo2.lean) -/
+
+/-- `rng.gen_bool(0.5)` on the recorded list of coin flips (an exhausted list yields `false`, as the harness' `CoinRng`) -/
+@[inline] def genBool (r : List Bool) : Bool × List Bool := (r.headD false, r.tail)
+
+/-- derived `PartialOrd` on `(unsigned, bool)`: lexicographic, `false < true` -/
+@[inline] def ltNatBool (a b : Nat × Bool) : Bool := decide (a.1 < b.1) || (a.1 == b.1 && !a.2 && b.2)
+
+/-- `HashSet::from_iter` -/
+def hashSetFromArr {κ} [BEq κ] [Hashable κ] (xs : Array κ) : HashSet κ := xs.foldl (fun s x => s.insert x) (HashSet.emptyWithCapacity xs.size)
+/-- `.collect::<HashMap<_, _>>()` — later pairs overwrite earlier ones -/
+def hashMapFromArr {κ ν} [BEq κ] [Hashable κ] (xs : Array (κ × ν)) : HashMap κ ν :=
+  xs.foldl (fun m kv => m.insert kv.1 kv.2) (HashMap.emptyWithCapacity xs.size)
+
+/-- `Iterator::cmp` on iterators of `(u16, u32, u32)` triples: lexicographic, a proper prefix is smaller -/
+def cmpArrNat3 (a b : Array (Nat × Nat × Nat)) : Ordering :=
+  let rec go : List (Nat × Nat × Nat) → List (Nat × Nat × Nat) → Ordering
+    | [], [] => .eq
+    | [], _ :: _ => .lt
+    | _ :: _, [] => .gt
+    | x :: xs, y :: ys =>
+      match compare x.1 y.1 with
+      | .eq => match compare x.2.1 y.2.1 with
+        | .eq => match compare x.2.2 y.2.2 with
+          | .eq => go xs ys
+          | o => o
+        | o => o
+      | o => o
+  go a.toList b.toList
+
 end B.Gen.Rust
